@@ -161,6 +161,9 @@ type Interp struct {
 	insecureTaint  map[int32]bool
 	fallbacks      map[string]*Solver
 	prefers        []*Term
+	abstractArith  bool    // nd.AbstractArith(): see Solver.Abstract
+	absSolver      *Solver // lazily started abstract-arithmetic solver
+	feasQuery      bool    // the current check is a branch-feasibility query
 
 	// stats (per worker, cumulative)
 	Instrs  int64
@@ -205,6 +208,7 @@ func (in *Interp) resetPath(prefix []int) {
 	in.noPanicDepth = 0
 	in.insecureTaint = map[int32]bool{}
 	in.prefers = nil
+	in.abstractArith = false
 }
 
 func (in *Interp) end(status, msg string) {
@@ -215,6 +219,11 @@ func (in *Interp) unsupported(msg string) {
 	site := ""
 	if in.curFrame != nil && in.curFrame.curInstr != nil {
 		site = in.posOf(in.curFrame.curInstr) + " in " + in.curFrame.fn.String()
+		if os.Getenv("SYMGO_STACK") != "" {
+			for f := in.curFrame.caller; f != nil; f = f.caller {
+				site += " <- " + f.fn.String()
+			}
+		}
 	}
 	panic(&pathEnd{"unsupported", msg + " @ " + site})
 }
@@ -275,6 +284,25 @@ func (in *Interp) check(extra *Term, wantModel bool) (SatResult, Model) {
 	var vars []*Term
 	if wantModel {
 		vars = in.st.Vars
+	}
+	if in.abstractArith && !wantModel {
+		if in.absSolver == nil || in.absSolver.dead {
+			if s, err := NewSolver(in.ex.SolverName, in.st, in.ex.TimeoutMs); err == nil {
+				s.Abstract = true
+				in.absSolver = s
+			}
+		}
+		if in.absSolver != nil {
+			ra, _ := in.absSolver.Check(conds, false, nil)
+			if ra == Unsat {
+				return Unsat, nil
+			}
+			if ra == Sat && in.feasQuery {
+				// over-approximate feasibility: an infeasible branch may be explored,
+				// but every violation and reach marker is re-decided precisely
+				return Sat, nil
+			}
+		}
 	}
 	r, m := in.solver.Check(conds, wantModel, vars)
 	if r == Unknown {
@@ -358,7 +386,9 @@ func (in *Interp) decide(alts []*Term, exh bool) int {
 			feas = append(feas, i)
 			break
 		}
+		in.feasQuery = true
 		r, _ := in.check(a, false)
+		in.feasQuery = false
 		if r != Unsat {
 			if r == Unknown {
 				in.ex.noteUnknown()
@@ -533,6 +563,14 @@ func (in *Interp) violationAt(id, msg, site string) {
 }
 
 func (in *Interp) violationAtF(id, msg, site, fname string) {
+	// a violation of the same assertion at the same site is already recorded:
+	// do not pay for another (possibly expensive) exact model
+	in.ex.mu.Lock()
+	dup := in.ex.vioSeen[in.harness+"|"+id+"|"+site]
+	in.ex.mu.Unlock()
+	if dup {
+		in.end("violation", id+": "+msg+" (duplicate of a recorded violation)")
+	}
 	var r SatResult
 	var m Model
 	if len(in.prefers) > 0 {
